@@ -174,6 +174,8 @@ def from_dimacs_file(cnfclass, fileorname=None):
     if fileorname is None:
         inputfile = sys.stdin
         name = '<stdin>'
+        if inputfile is None:
+            raise ValueError("There is no <stdin> to read the formula from")
     elif isinstance(fileorname, str):
         with open(fileorname, 'r', encoding='utf-8') as filehandle:
             return from_dimacs_file(cnfclass, filehandle)
